@@ -3,10 +3,12 @@
 Entry points: sfile.write(..., delim=)/sfile.read and Recfile(mode='w', delim=).write /
 Recfile(mode='r', dtype=, delim=).read, observed at the text of the file, the stored header and the
 array read back.  The Coq model (C04/TextModel.v) prints integers and scans every token itself; the
-text of a floating-point element and the value of a floating-point token are supplied per case by
-Python ('%.16g' % x, '%.7g' % x, float(s) / exact rounding to binary32) and are MONITORED: the model's
-file text (built from the supplied texts) must equal the bytes glibc wrote, the values glibc stored
-must equal the supplied ones, and the contract H_num (Spec.fcontract_b) is evaluated on every case.
+text of a floating-point element and the value of a floating-point token are computed by the model too
+(C04/FmtModel.v: printf("%.<p>g") and strtod/strtof in exact integer arithmetic, the precisions <p> read
+out of records.cpp on every run by c04_translate.py -> C04/Gen.v).  Nothing is assumed about them: the
+model's file text must equal the bytes glibc wrote, the values the model predicts must equal the values
+glibc stored, and the contract H_num of the theorems (Spec.fcontract_b) is evaluated on every case.
+(fmt_oracle / parse_oracle below are Python twins of FmtModel; the check does not use them.)
 """
 import json
 import os
@@ -15,9 +17,10 @@ from fractions import Fraction
 
 from .. import core
 from ..runner import Entry, corpus_cases
+from . import c04_translate
 
 PRE = ("From Coq.Strings Require Import Byte.\nFrom Coq Require Import PrimInt63.\n"
-       "From EsVerif.Common Require Import Base Bytes.\nFrom EsVerif.C04 Require Import TextModel Spec Exec.\n")
+       "From EsVerif.Common Require Import Base Bytes.\nFrom EsVerif.C04 Require Import TextModel Spec FmtModel Exec.\n")
 
 KF = "kf_leading_ws_after_numeric"
 DELIMS = [",", ":", "\t", " ", ";", "|"]
@@ -310,15 +313,13 @@ class SFileRT(_Base):
                 os.remove(fn)
 
     def term(self, c, out):
-        ft, pt = oracle_tables(c)
         if "write_err" in out:
             return "3"
-        return "v_sfile %s %s %s %s %s %s %s" % (ctab3(ft), ctab3(pt), cbyte(c["delim"]), case_table(c),
-                                                 chex(bytes.fromhex(out["text"])), chdr(out["hdr"]), cout(out["read"]))
+        return "v_sfile2 %s %s %s %s %s" % (cbyte(c["delim"]), case_table(c),
+                                            chex(bytes.fromhex(out["text"])), chdr(out["hdr"]), cout(out["read"]))
 
     def show(self, c):
-        ft, pt = oracle_tables(c)
-        return "m_sfile %s %s %s %s" % (ctab3(ft), ctab3(pt), cbyte(c["delim"]), case_table(c))
+        return "m_sfile2 %s %s" % (cbyte(c["delim"]), case_table(c))
 
 
 class RecfileRT(_Base):
@@ -347,15 +348,13 @@ class RecfileRT(_Base):
                 os.remove(fn)
 
     def term(self, c, out):
-        ft, pt = oracle_tables(c)
         if "write_err" in out:
             return "3"
-        return "v_recfile %s %s %s %s %s %s" % (ctab3(ft), ctab3(pt), cbyte(c["delim"]), case_table(c),
-                                                chex(bytes.fromhex(out["text"])), cout(out["read"]))
+        return "v_recfile2 %s %s %s %s" % (cbyte(c["delim"]), case_table(c),
+                                           chex(bytes.fromhex(out["text"])), cout(out["read"]))
 
     def show(self, c):
-        ft, pt = oracle_tables(c)
-        return "m_recfile %s %s %s %s" % (ctab3(ft), ctab3(pt), cbyte(c["delim"]), case_table(c))
+        return "m_recfile2 %s %s" % (cbyte(c["delim"]), case_table(c))
 
 
 # ----------------------------------------------------------------------------------------------
@@ -631,14 +630,15 @@ def differential(ctx, entries, replay_case=None):
         failing = [(c, o, v) for c, o, v in res if v & 3 >= 2]
         disagree = [(c, o, v) for c, o, v in res if v & 3 == 1]
         monitor = [(c, o, v) for c, o, v in res if v & 8]
-        ctx.obligation("contract monitor H_num (Spec.fcontract_b on the supplied printf/scanf oracle) on %d %s cases" % (
+        ctx.obligation("contract monitor H_num (Spec.fcontract_b on FmtModel.F_model/P_model) on %d %s cases" % (
             len(res), ent.name), not monitor)
         if monitor:
             c, o, v = min(monitor, key=lambda t: len(json.dumps(t[0], default=str)))
-            ctx.violation("%s: contract monitor: the supplied floating-point oracle violates H_num (defect of the model's "
-                          "assumptions, not of esutil); theorems C04_roundtrip* assume it" % ent.name,
+            ctx.violation("%s: contract monitor: the modelled printf/strtod (FmtModel.F_model/P_model with the precisions of "
+                          "records.cpp) violates H_num on this table: a float does not come back to the stated number of "
+                          "significant digits; theorems C04_roundtrip* assume H_num" % ent.name,
                           {"kind": "contract-monitor", "entry": ent.name, "case": c, "impl_output": o, "verdict": v,
-                           "oracle": [[sz, a.hex(), b.decode("latin1")] for sz, a, b in oracle_tables(c)[0]]}, found_input=False)
+                           "class": None}, found_input=bool(v & 2))
         if disagree and not failing and replay_case is None:
             for rnd in range(1, ent.search_rounds + 1):
                 extra = list(ent.cases(ctx, rnd))
@@ -676,16 +676,42 @@ TRUSTED = [
     "Coq 8.16.1 kernel (coqc, vm_compute; no native_compute); all C04 theorems are closed under the global context (no axioms)",
     "hand-written model C04/TextModel.v of records.cpp (WriteRows/WriteField/WriteStringAsAscii/WriteNumberAsAscii, "
     "read_text_columns/scan_column_values/read_ascii_bytes/skip_text_rows, make_scan_formats), recfile/Util.py "
-    "(Recfile.write/to_native_inplace, remove_dtype_byteorder, _count_nrows) and sfile.py (_make_header/_remove_byteorder); "
+    "(Recfile.write/to_native, remove_dtype_byteorder, _count_nrows) and sfile.py (_make_header/_remove_byteorder); "
     "tied to the working tree by the correspondence run on every check (file text, stored header, array read back)",
     "modelled, not verified: glibc vfscanf (white-space directive, literal directive, one byte of push-back, the numeric token "
     "automaton incl. inf/nan/hex floats), fgetc/EOF through a signed char, fprintf of integers (decimal printer dec, proved "
-    "inverse to the scanner), numpy's memory layout of packed structured dtypes, byteswap, dtype.descr, pprint/eval of the header",
-    "assumed through the contract H_num and monitored on every case: glibc printf('%.16g'/'%.7g') text of each floating-point "
-    "element and strtod/strtof value of each token (supplied by Python's '%.16g' % x, float(s) and exact rounding to binary32)",
-    "python harness (harness/props/C04.py): builds the arrays from raw memory bytes, slices results per element, literal printers; "
-    "coqc evaluating Exec.v verdict terms",
+    "inverse to the scanner), numpy's memory layout of packed structured dtypes, astype/byteswap, dtype.descr, pprint/eval of the header",
+    "modelled in C04/FmtModel.v and compared with glibc on every floating-point cell of every case: printf('%.16g'/'%.7g') (exact "
+    "decimal expansion, round-half-even, %g style selection, zero stripping) and strtod/strtof (exact, round-half-even, "
+    "subnormals, overflow); the theorems assume about them only the contract H_num (token well-formed; value comes back to "
+    "16/7 significant digits; NaN->NaN, +-inf->+-inf), which is evaluated in Coq on every case (contract monitor), not proved for all floats",
+    "print precisions read out of records.cpp on every run (harness/props/c04_translate.py -> C04/Gen.v, fail-closed); the scan "
+    "conversions and the ' '+delim suffix rule are compared with what the hand model implements",
+    "python harness (harness/props/C04.py): builds the arrays from raw memory bytes, slices results per element, canonicalises NaNs, "
+    "literal printers; coqc evaluating Exec.v verdict terms",
 ]
+
+
+def translate_step(ctx):
+    try:
+        c, changed = c04_translate.regenerate(ctx.impl, core.COQDIR)
+        ctx.obligation("Gen.v regenerated from esutil/recfile/records.cpp (print %%.%dg / %%.%dg, scan %%%s / %%%s, suffix %r+delim)%s" % (
+            c["p4"], c["p8"], c["s4"], c["s8"], c["suffix_char"], " [changed]" if changed else ""), True)
+    except c04_translate.TranslateError as e:
+        ctx.obligation("Gen.v regenerated from esutil/recfile/records.cpp", False, str(e))
+        ctx.violation("translation of the format constants of records.cpp failed: %s" % e,
+                      {"kind": "translation", "error": str(e),
+                       "no_longer_checks": "tie of C04/Gen.v (print_prec_f4, print_prec_f8, scan conversions, suffix rule) to "
+                                           "esutil/recfile/records.cpp; theorem C04_roundtrip_fmt_model"}, found_input=False)
+        return
+    ok = c04_translate.tie_ok(c)
+    ctx.obligation("scan formats of records.cpp are the ones the hand model implements (%f, %lf, then ' ' and the delimiter)", ok)
+    if not ok:
+        ctx.violation("the scan formats of records.cpp (%%%s, %%%s, suffix %r+delim) are not the ones TextModel.fscanf_num models" % (
+            c["s4"], c["s8"], c["suffix_char"]),
+                      {"kind": "translation", "constants": c,
+                       "no_longer_checks": "tie of TextModel.fscanf_num/read_num to make_scan_formats; theorems "
+                                           "C04_scan_field_consumes_exactly, C04_roundtrip_*"}, found_input=False)
 
 
 def run(ctx, replay=None):
@@ -697,5 +723,6 @@ def run(ctx, replay=None):
                 "array read back? verified checker on the implementation's output).  non-trivial: >= 2 fields of different kinds, "
                 ">= 2 rows, at least one value that is not a small non-negative integer.  distinct by canonical JSON.")
     ctx.trusted = TRUSTED
+    translate_step(ctx)
     core.proof_step(ctx, "C04", core.ALLOW_DISCRETE)
     differential(ctx, ENTRIES, replay)
